@@ -84,6 +84,21 @@ def safe_run_case(mod, case, repo):
                                    msg='%s: %s' % (type(e).__name__, str(e)[:300]),
                                    traceback=tb[-2000:])],
                         stats={}, nontrivial=True, key=None)
+        # An exception raised by the oracle itself while it digests what the repository returned (None where a tuple
+        # is documented, a singular matrix where a covariance is expected, a table of the wrong shape): the output
+        # cannot be what the property describes - on the unchanged tree no oracle aborts (every tier, every seed).  It
+        # is a violation of that case, confirmed in a fresh process like any other; faults that say nothing about
+        # the repository's output (memory, files, imports, interrupts) stay harness errors.
+        if isinstance(e, (TypeError, ValueError, IndexError, KeyError, AttributeError, ArithmeticError,
+                          AssertionError)) and not isinstance(e, (ImportError, OSError, MemoryError)):
+            last = traceback.extract_tb(e.__traceback__)[-1]
+            inner = [fs for fs in traceback.extract_tb(e.__traceback__) if os.sep + 'mc' + os.sep in fs.filename]
+            where = inner[-1] if inner else last
+            return dict(viol=[dict(sig='ORACLE-ABORT:%s:%s' % (type(e).__name__, where.name),
+                                   msg='the oracle could not digest the repository\'s output: %s: %s (at %s:%d)'
+                                       % (type(e).__name__, str(e)[:200], os.path.basename(where.filename), where.lineno),
+                                   traceback=tb[-2000:])],
+                        stats={}, nontrivial=True, key=None)
         return dict(harness_error=tb, viol=[], stats={}, nontrivial=False, key=None)
 
 
